@@ -265,15 +265,29 @@ void cstl_hash_resize(struct cstl_hash * const h,
                       const size_t count, cstl_hash_func_t * const hash)
 {
     if (count > 0) {
+        size_t cur_count;
+        cstl_hash_func_t * cur_hash;
+
         if (count > h->bucket.capacity) {
             __cstl_hash_set_capacity(h, count);
         }
 
+        /*
+         * the request is compared against the geometry the table
+         * is headed for, which is the pending one during a rehash
+         */
+        cur_count = h->bucket.count;
+        cur_hash = h->bucket.hash;
+        if (h->bucket.rh.hash != NULL) {
+            cur_count = h->bucket.rh.count;
+            cur_hash = h->bucket.rh.hash;
+        }
+
         if (h->bucket.at != NULL
             && count <= h->bucket.capacity
-            && (count != h->bucket.count
+            && (count != cur_count
                 || (hash != NULL
-                    && hash != h->bucket.hash))) {
+                    && hash != cur_hash))) {
             unsigned int i;
 
             /*
